@@ -126,14 +126,27 @@ func (b *builderOptions) Build() (*Biscuit, error) {
 	if v := b.rootKeyID; v != nil {
 		opts = append(opts, WithRootKeyID(*v))
 	}
+	// the builder stays usable: the token gets copies, the builder's own state is left untouched
+	baseSymbols := b.symbols.Clone()
+	blockSymbols := baseSymbols.SplitOff(b.symbolsStart)
+
+	facts := make(datalog.FactSet, len(*b.facts))
+	copy(facts, *b.facts)
+
+	rules := make([]datalog.Rule, len(b.rules))
+	copy(rules, b.rules)
+
+	checks := make([]datalog.Check, len(b.checks))
+	copy(checks, b.checks)
+
 	return newBiscuit(
 		b.rootKey,
-		b.symbols,
+		baseSymbols,
 		&Block{
-			symbols: b.symbols.SplitOff(b.symbolsStart),
-			facts:   b.facts,
-			rules:   b.rules,
-			checks:  b.checks,
+			symbols: blockSymbols,
+			facts:   &facts,
+			rules:   rules,
+			checks:  checks,
 			context: b.context,
 			version: MaxSchemaVersion,
 		},
@@ -220,11 +233,15 @@ type BlockBuilder interface {
 
 type blockBuilder struct {
 	symbolsStart int
-	symbols      *datalog.SymbolTable
-	facts        *datalog.FactSet
-	rules        []datalog.Rule
-	checks       []datalog.Check
-	context      string
+	// symbols holds the symbols introduced by the most recently built block (the base table before any
+	// block is built); table is what terms are converted against: the base symbols followed by every
+	// symbol added through the builder. Build leaves table untouched so that the builder can be used again.
+	symbols *datalog.SymbolTable
+	table   *datalog.SymbolTable
+	facts   *datalog.FactSet
+	rules   []datalog.Rule
+	checks  []datalog.Check
+	context string
 }
 
 var _ BlockBuilder = (*blockBuilder)(nil)
@@ -233,6 +250,7 @@ func NewBlockBuilder(baseSymbols *datalog.SymbolTable) BlockBuilder {
 	return &blockBuilder{
 		symbolsStart: baseSymbols.Len(),
 		symbols:      baseSymbols,
+		table:        baseSymbols,
 		facts:        new(datalog.FactSet),
 	}
 }
@@ -261,7 +279,7 @@ func (b *blockBuilder) AddBlock(block ParsedBlock) error {
 }
 
 func (b *blockBuilder) AddFact(fact Fact) error {
-	dlFact := fact.convert(b.symbols)
+	dlFact := fact.convert(b.table)
 	if !b.facts.Insert(dlFact) {
 		return ErrDuplicateFact
 	}
@@ -270,14 +288,14 @@ func (b *blockBuilder) AddFact(fact Fact) error {
 }
 
 func (b *blockBuilder) AddRule(rule Rule) error {
-	dlRule := rule.convert(b.symbols)
+	dlRule := rule.convert(b.table)
 	b.rules = append(b.rules, dlRule)
 
 	return nil
 }
 
 func (b *blockBuilder) AddCheck(check Check) error {
-	dlCheck := check.convert(b.symbols)
+	dlCheck := check.convert(b.table)
 	b.checks = append(b.checks, dlCheck)
 
 	return nil
@@ -288,7 +306,8 @@ func (b *blockBuilder) SetContext(context string) {
 }
 
 func (b *blockBuilder) Build() *Block {
-	b.symbols = b.symbols.SplitOff(b.symbolsStart)
+	// the builder stays usable: the table its terms were converted against is left untouched
+	b.symbols = b.table.Clone().SplitOff(b.symbolsStart)
 
 	facts := make(datalog.FactSet, len(*b.facts))
 	copy(facts, *b.facts)
